@@ -51,7 +51,7 @@ fn gen_population(t: &mut Tape, masters: &[u8], max_delay: u64) -> BTreeMap<u8, 
         if masters.contains(&a) {
             continue;
         }
-        let k = *t.pick(&[PeerKind::StatusOnly, PeerKind::DpSlave, PeerKind::DpSlave, PeerKind::Silent]);
+        let k = *t.pick(&[PeerKind::StatusOnly, PeerKind::DpSlave, PeerKind::DpSlave, PeerKind::Silent, PeerKind::FdlOnly]);
         m.insert(a, (k, 11 + t.below(max_delay - 10)));
     }
     m
@@ -102,7 +102,7 @@ fn scan_case(t: &mut Tape, obs: &mut Obs, scanner: bool) -> CaseResult {
                 } else {
                     let a = t.below(126) as u8;
                     if !masters.contains(&a) {
-                        let k = *t.pick(&[PeerKind::StatusOnly, PeerKind::DpSlave, PeerKind::Silent]);
+                        let k = *t.pick(&[PeerKind::StatusOnly, PeerKind::DpSlave, PeerKind::Silent, PeerKind::FdlOnly]);
                         p.insert(a, (k, 11 + t.below(max_delay - 10)));
                         changes += 1;
                     }
@@ -155,7 +155,7 @@ fn scan_case(t: &mut Tape, obs: &mut Obs, scanner: bool) -> CaseResult {
     let p = pop.borrow();
     if !scanner {
         // expected live list: everything that answers status requests, other masters included
-        let mut want: BTreeSet<u8> = p.iter().filter(|(_, (k, _))| matches!(k, PeerKind::StatusOnly | PeerKind::DpSlave)).map(|(a, _)| *a).collect();
+        let mut want: BTreeSet<u8> = p.iter().filter(|(_, (k, _))| matches!(k, PeerKind::StatusOnly | PeerKind::DpSlave | PeerKind::FdlOnly)).map(|(a, _)| *a).collect();
         for m in &masters {
             if *m != own {
                 want.insert(*m);
